@@ -289,7 +289,8 @@ impl Property for C01 {
                 }
                 1 => {
                     let elem = *t.pick(&["INT", "REAL", "TEXT", "BOOLEAN"]);
-                    let n = 2 + t.draw(3);
+                    // (an array of one listed group is an array, too)
+                    let n = 1 + t.draw(4);
                     let refs = (0..n).map(|_| pick_ref(t)).collect();
                     let modifier = if t.chance(1, 8) { Some(Modifier::NotNull) } else { None };
                     entries.push(Entry::Column { source: Source::Groups(refs), name: cname, ty: format!("{}[]", elem), modifier });
